@@ -182,6 +182,15 @@ func genJsonDec(tier string, seed uint64) {
 		emitJ([]byte("\"" + strings.Repeat("a", n)))
 	}
 	emitJ([]byte(strings.Repeat("1", 70000)))
+	// things some parsers forgive in front of, between and after the parts of a valid document
+	for _, doc := range []string{"1", "\"a\"", "[1,2]", "{\"a\":1}", "true", "null", "-0.5e1"} {
+		for _, pre := range []string{"\xef\xbb\xbf", "\xfe\xff", "\xff\xfe", "\xef\xbb", "\x00", "\xc2\xa0", "\xe2\x80\xa8", "\x0b", "\x0c", "\x1e", "//c\n", "/*c*/", "#c\n", "\xef\xbb\xbf\xef\xbb\xbf", " \xef\xbb\xbf"} {
+			emitJ([]byte(pre + doc))
+			emitJ([]byte(doc + pre))
+			emitJ([]byte("[" + pre + doc + "]"))
+			emitJ([]byte("[" + doc + pre + "]"))
+		}
+	}
 	// integer literals longer than any 64-bit number (with and without sign, exponent markers of both cases)
 	for _, n := range []int{19, 20, 21, 63, 64, 65, 66, 100, 308, 309, 310, 400} {
 		for _, d := range []string{"1", "9"} {
@@ -396,6 +405,16 @@ func genJsonEnc(tier string, seed uint64) {
 			emit("jsonenc %s %s {1,s%s,i1,}", o[0], o[1], k)
 			emit("jsonenc %s %s {2,s61,s%s,s%s,[1,s%s,],}", o[0], o[1], k, k, k)
 			emit("jsonenc %s %s [2,s%s,{-1,s%s,0,},]", o[0], o[1], k, k)
+		}
+	}
+	for _, k := range []int{30, 31, 32, 33, 62, 63, 64, 65, 66, 127, 128, 129, 255, 256, 257} {
+		for _, esc := range []string{"22", "5c", "0a", "01", "ff", "e280a8", "7f"} {
+			for _, unit := range []string{"61", "c3a9"} {
+				run := strings.Repeat(unit, k)[:2*k]
+				emit("jsonenc nil - s%s%s62", run, esc)
+				emit("jsonenc nil - s78%s%s%s%s", run, esc, run, esc)
+				emit("jsonenc 0a 09 {1,s%s%s,s%s%s,}", run, esc, run, esc)
+			}
 		}
 	}
 	emitShapes("jsonenc", tier)
